@@ -356,6 +356,26 @@ class Run:
                 hs = [h for h in split_histories(l3) if is_reset(h[0]) and json.loads(h[0]).get("gen") == gen and json.loads(h[0]).get("case") == case]
                 if not hs:
                     continue
+                # (a) cheap: is the whole trace of the second run accepted?  then nothing recurs
+                accw, hwmw, nw, rw = self.validate_file(spec, p3, dfs=dfs)
+                if accw:
+                    continue
+                # (b) which history does the second run reject?  the same one -> exact reproduction (judged below);
+                #     another history of the same generator at the same kind of event -> the behaviour recurs but where
+                #     it shows depends on something the driver does not control (a sync.Pool, the collector): also confirmed
+                hh = split_histories(l3)
+                pos, rej = 0, None
+                for h in hh:
+                    if pos < hwmw <= pos + len(h):
+                        rej = h
+                        break
+                    pos += len(h)
+                same_ev = rej is not None and safe_json(l3[hwmw - 1]) and isinstance(safe_json(l3[hwmw - 1]), dict) and \
+                    isinstance(safe_json(hist[idx]) if idx < len(hist) else None, dict) and safe_json(l3[hwmw - 1]).get("ev") == safe_json(hist[idx]).get("ev")
+                if rej is not None and is_reset(rej[0]) and json.loads(rej[0]).get("gen") == gen and json.loads(rej[0]).get("case") != case and same_ev:
+                    hs = [rej]
+                    case = json.loads(rej[0]).get("case")
+                    log("NOTE the second whole run rejects %s/%s at the same kind of event: recurring, schedule- or allocator-dependent behaviour" % (gen, case))
                 # judge the run up to and including that history (its context), not the history alone
                 upto = []
                 for h in split_histories(l3):
